@@ -228,6 +228,9 @@ func classifyClose(err error) string {
 	if errors.As(err, &te) && te.TypeId() == frugal.TRANSPORT_EXCEPTION_NOT_OPEN {
 		return "NOT_OPEN"
 	}
+	if errors.Is(err, faultio.ErrInjected) {
+		return "closeerr"
+	}
 	return "error:" + err.Error()
 }
 
@@ -346,6 +349,10 @@ func replayHistory(cfg config, idx int, hist []Step, cuts []int) {
 			r.pipe.SetOpenErr(nil)
 		case "close":
 			resStr = classifyClose(withDeadline(r.tr.Close))
+		case "closefail":
+			r.pipe.SetCloseErr(faultio.ErrInjected)
+			resStr = classifyClose(withDeadline(r.tr.Close))
+			r.pipe.SetCloseErr(nil)
 		case "fault":
 			res.Faults++
 			res.Kinds[s.Kind]++
@@ -466,6 +473,49 @@ func inject(p *faultio.Pipe, kind string, cut int) {
 	}
 }
 
+func raceReopen(rc raceCase, r *rig, ctl *sched.Ctl, fail func(key, text string)) {
+	if e := classifyClose(withDeadline(r.tr.Close)); e != "closed" {
+		fail("reopen-race/close", "user Close while the read loop was held at "+rc.Hold+" returned "+e)
+		ctl.ReleaseAll()
+		return
+	}
+	if e := classifyOpen(withDeadline(r.tr.Open)); e != "ok" {
+		fail("reopen-race/open", "Open after that Close returned "+e)
+		ctl.ReleaseAll()
+		return
+	}
+	r.g.capture(r.tr)
+	r.waitReader()
+	ctl.Release(rc.Hold, 0) // now the late read loop of generation 1 continues
+	time.Sleep(5 * time.Millisecond)
+	p, problem := r.project(2)
+	if p.Open != "true" || p.Cause[1] != "none" {
+		fail("reopen-race/late-loop-closed-new-generation", fmt.Sprintf("the read loop of the failed generation 1, released after Close + Open, affected generation 2: transport shows %+v %s", p, problem))
+		return
+	}
+	if p.Cause[0] != "nil" {
+		fail("reopen-race/first-cause", fmt.Sprintf("generation 1 was closed by the user but published %v", p.Cause))
+		return
+	}
+	// generation 2 still detects its own failure, exactly once
+	inject(r.pipe, rc.Second, rc.Cut)
+	ok := false
+	for dl := time.Now().Add(2 * time.Second); time.Now().Before(dl); time.Sleep(300 * time.Microsecond) {
+		p, problem = r.project(2)
+		if p.Open == "false" && p.Cause[1] != "none" {
+			ok = true
+			break
+		}
+	}
+	want := "err"
+	if rc.Second == "eof" {
+		want = "nil"
+	}
+	if !ok || p.Cause[1] != want || problem != "" {
+		fail("reopen-race/second-failure", fmt.Sprintf("generation 2 %s fault after the race: transport shows %+v %s", rc.Second, p, problem))
+	}
+}
+
 func race(rc raceCase, traceW *bufio.Writer) {
 	ctl := sched.New()
 	ctl.Install()
@@ -489,6 +539,12 @@ func race(rc raceCase, traceW *bufio.Writer) {
 		go func() { userDone <- classifyClose(r.tr.Close()) }()
 		// let the user's Close get as far as it can (it may finish, or park on f.mu / the signal channel)
 		time.Sleep(3 * time.Millisecond)
+	}
+	if rc.User == "close+open" {
+		// the user closes and reopens while the failing generation's read loop is still on its way to close():
+		// the late loop must not touch the new generation
+		raceReopen(rc, r, ctl, fail)
+		return
 	}
 	ctl.Release(rc.Hold, 0)
 	userRes := "none"
@@ -777,7 +833,7 @@ func main() {
 		n := 0
 		for _, f := range []string{"eof", "err"} {
 			for _, h := range []string{"life.rl.err", "life.rl.closing"} {
-				for _, u := range []string{"close", "none"} {
+				for _, u := range []string{"close", "none", "close+open"} {
 					for _, s := range []string{"eof", "err", "badframe"} {
 						for _, cut := range []int{0, 3, frameEnds[0], frameEnds[0] + 5, len(stream)} {
 							rc := raceCase{f, h, u, s, cut}
